@@ -283,52 +283,74 @@ theorem late_accept_refused (w : World) (g c : Nat) (hst : w.ctors[g]? = some .s
 
 /-! ## 6. an incapable peer is reported -/
 
-/-- the peer's `versions` (a JSON object; its `can-dilate` any JSON that `_find_shared_versions` can
-    put into a set) shares no dilation version with ours.  This includes `{}`, a dict without
-    `can-dilate`, an empty list, a list of foreign strings, of numbers / booleans / nulls, a
-    `can-dilate` that is a string or an empty dict. -/
-def Incapable (v : Vers) : Prop := ∃ dv, sharedVersion v = .ok dv ∧ falsy dv = true
+/-- the peer names one of our dilation versions: its versions body is a dict whose `can-dilate` is
+    a list holding that string -/
+def offersOurs (v : Vers) : Bool :=
+  match v with
+  | .obj kvs =>
+    match lookupKey "can-dilate" kvs with
+    | some (.arr xs) => Consts.DILATION_VERSIONS.any fun m => xs.any (·.isStr m)
+    | _ => false
+  | _ => false
+
+/-- **the incapable peer, as the property means it**: its versions body is a dict (Boss lets nothing
+    else through) and — whatever JSON sits under `can-dilate`: nothing, a list of foreign strings,
+    numbers, booleans, nulls, nested lists or dicts, or no list at all (a string, a number, a dict,
+    null) — it does not name a version of ours -/
+def Incapable (v : Vers) : Prop := (∃ kvs, v = .obj kvs) ∧ offersOurs v = false
+
+theorem find_none_of_any_false {α : Type} (l : List α) (p : α → Bool) (h : l.any p = false) : l.find? p = none := by
+  induction l with
+  | nil => rfl
+  | cons x xs ih =>
+    simp only [List.any_cons, Bool.or_eq_false_iff] at h
+    simp [List.find?, h.1, ih h.2]
+
+/-- for EVERY such body `_find_shared_versions` returns None and raises nothing (this is the theorem
+    that needs both guards of the working tree: non-lists count as `[]`, only str entries are kept) -/
+theorem incapable_shared {v : Vers} (h : Incapable v) : sharedVersion v = .ok none := by
+  obtain ⟨⟨kvs, rfl⟩, ho⟩ := h
+  have hnil : Consts.DILATION_VERSIONS.find? (fun m => ([] : List J).any (·.isStr m)) = none :=
+    find_none_of_any_false _ _ (by simp)
+  simp only [sharedVersion]
+  simp only [offersOurs] at ho
+  cases hc : lookupKey "can-dilate" kvs with
+  | none =>
+    simp [findShared, Flags.shared_versions_requires_list, Flags.shared_versions_filters_strings, hnil]
+  | some c =>
+    rw [hc] at ho
+    cases c with
+    | arr xs =>
+      simp only at ho
+      simp [findShared, Flags.shared_versions_requires_list, Flags.shared_versions_filters_strings,
+        find_none_of_any_false _ _ ho]
+    | _ => simp [findShared, Flags.shared_versions_requires_list, Flags.shared_versions_filters_strings, hnil]
 
 theorem Incapable.notNull {v : Vers} (h : Incapable v) : v.isNull = false := by
-  obtain ⟨dv, hs, _⟩ := h
-  cases v <;> simp_all [sharedVersion, J.isNull]
+  obtain ⟨⟨kvs, rfl⟩, _⟩ := h
+  rfl
 
 example : Incapable (.obj []) ∧ Incapable (.obj [("app_versions", .obj [])]) ∧
     Incapable (.obj [("can-dilate", .arr [])]) ∧ Incapable (.obj [("can-dilate", .arr [.str "vetch"])]) ∧
     Incapable (.obj [("can-dilate", .arr [.num false, .num true, .bool true, .null, .str "x"])]) ∧
-    Incapable (.obj [("can-dilate", .str "ged")]) ∧ Incapable (.obj [("can-dilate", .obj [])]) :=
-  ⟨⟨none, rfl, rfl⟩, ⟨none, rfl, rfl⟩, ⟨none, rfl, rfl⟩, ⟨none, rfl, rfl⟩, ⟨none, rfl, rfl⟩, ⟨none, rfl, rfl⟩,
-   ⟨none, rfl, rfl⟩⟩
+    Incapable (.obj [("can-dilate", .str "ged")]) ∧ Incapable (.obj [("can-dilate", .obj [("ged", .num false)])]) ∧
+    Incapable (.obj [("can-dilate", .arr [.arr [.num false]])]) ∧ Incapable (.obj [("can-dilate", .arr [.str "x", .obj []])]) ∧
+    Incapable (.obj [("can-dilate", .num false)]) ∧ Incapable (.obj [("can-dilate", .null)]) ∧
+    Incapable (.obj [("can-dilate", .bool true)]) :=
+  ⟨⟨⟨_, rfl⟩, rfl⟩, ⟨⟨_, rfl⟩, rfl⟩, ⟨⟨_, rfl⟩, rfl⟩, ⟨⟨_, rfl⟩, rfl⟩, ⟨⟨_, rfl⟩, rfl⟩, ⟨⟨_, rfl⟩, rfl⟩, ⟨⟨_, rfl⟩, rfl⟩,
+   ⟨⟨_, rfl⟩, rfl⟩, ⟨⟨_, rfl⟩, rfl⟩, ⟨⟨_, rfl⟩, rfl⟩, ⟨⟨_, rfl⟩, rfl⟩, ⟨⟨_, rfl⟩, rfl⟩⟩
 
-/-- a capable peer is not `Incapable` -/
-example : ¬ Incapable (.obj [("can-dilate", .arr [.str "vetch", .str "ged"])]) := by
-  rintro ⟨dv, hs, hf⟩
-  have : sharedVersion (.obj [("can-dilate", .arr [.str "vetch", .str "ged"])]) = .ok (some "ged") := rfl
-  rw [this] at hs
-  cases hs
-  simp [falsy] at hf
-
-/-- **Finding on the current tree** (`old_peer_reported` does NOT extend to every JSON a peer can send): a
-    `can-dilate` list holding a list or a dict (unhashable), or a `can-dilate` that is a number, a
-    boolean or null (not iterable), makes `_find_shared_versions` raise TypeError before `fail()`
-    and `start()`: the exception goes to the caller (Boss → `error`), `_main_channel` stays
-    unset and every pending or future connect() is left waiting.  (Harness signatures
-    `…:unhashable-can-dilate-entry`, `…:can-dilate-not-iterable`.) -/
-theorem old_peer_reported_fails_for_malformed_can_dilate (w : World) (hm : w.hasMgr = true) :
-    (∀ v ∈ [J.obj [("can-dilate", .arr [.arr [.num false]])], .obj [("can-dilate", .arr [.str "x", .obj []])],
-            .obj [("can-dilate", .num false)], .obj [("can-dilate", .null)], .obj [("can-dilate", .bool true)]],
-      step w (.versions v) = (w, .raised .typeError)) := by
-  intro v hv
-  simp only [List.mem_cons, List.mem_nil_iff, or_false] at hv
-  rcases hv with rfl | rfl | rfl | rfl | rfl <;> simp only [step, gotVersions, hm, ↓reduceIte] <;> rfl
+/-- a capable peer is not `Incapable`, even with junk around the version it names -/
+example : ¬ Incapable (.obj [("can-dilate", .arr [.arr [], .str "vetch", .num true, .str "ged"])]) := by
+  rintro ⟨_, h⟩
+  simp [offersOurs, lookupKey, Consts.DILATION_VERSIONS, J.isStr] at h
 
 /-- versions arriving after `dilate()`: `_main_channel` holds the Failure, nobody is left waiting
     on it, and every connect() that was waiting has its errback queued -/
 theorem old_peer_reported_live (w : World) (v : Vers) (hm : w.hasMgr = true) (hv : Incapable v) :
     let w' := (step w (.versions v)).1
     w'.main = .failed ∧ w'.mainObs = [] ∧ ∀ id ∈ w.mainObs, Thunk.waiter id false ∈ w'.queue := by
-  obtain ⟨dv, hs, hf⟩ := hv
-  have := incapable_fails v w dv hs hf
+  have := incapable_fails v w none (incapable_shared hv) rfl
   simp only [step, gotVersions, hm, ↓reduceIte]
   rcases hr : mgrGotVersions v w with ⟨u, e⟩
   rw [hr] at this
@@ -347,8 +369,7 @@ theorem old_peer_reported_replay (w : World) (v : Vers) (hc : w.called = false) 
   have h1 : (replayVersions u).1.main = .failed := by
     unfold replayVersions
     rw [hk, hrv]
-    obtain ⟨dv, hs, hf⟩ := hv
-    exact (incapable_fails v u dv hs hf).1
+    exact (incapable_fails v u none (incapable_shared hv) rfl).1
   rcases hr : replayVersions u with ⟨u', e⟩
   rw [hr] at h1
   cases e with
@@ -414,7 +435,8 @@ theorem old_peer_reported (v : Vers) (hv : Incapable v) (nl al : Bool) (my : Str
   have hrv : replayVersions? (some v) = some v := by
     simp [replayVersions?, Flags.pending_versions_guard_is_not_none]
   have hnn := hv.notNull
-  obtain ⟨dv, hs, hv'⟩ := hv
+  have hs := incapable_shared hv
+  have hv' : falsy none = true := rfl
   have hrn : replayVersions? none = none := by simp [replayVersions?]
   refine ⟨?_, ?_, ?_, ?_⟩ <;>
     simp [run, step, hrn, Terminator.init, World.init, dilate, replayKey, replayVersions, hrv, drainMsgs, andThen, connect, connectAs,
